@@ -20,7 +20,7 @@ CFGS = [
     ([], [{"from": "A", "to": "MA", "kids": ["B"]}]),
     ([["R", "B", "g1"], ["B", "B", "g1"]], [{"from": "A", "to": "MA", "kids": ["B"]}]),
     ([["A", "A", "g1"], ["A", "B", "g1"], ["R", "A", "g2"]], []),
-    ([], [{"from": "R", "to": "MR", "kids": ["A"]}, {"from": "B", "to": "MB", "kids": ["A", "B"]}]),
+    ([], [{"from": "R", "to": "MR", "kids": ["A"]}, {"from": "B", "to": "MB", "kids": ["A"]}]),
 ]
 
 
